@@ -237,6 +237,10 @@ AXIS_FAMILIES = {
     'P300': (_D300, _D300),
     'STRX': (lambda i: _STR[i], lambda j: F(j)),
     'STRY': (lambda i: F(i), lambda j: _STR[j]),
+    # a boundary 1 unit from the border of cells 64 .. 192 units tall / wide: whether the cut leaves a piece thinner than
+    # 1% of the cell's other side depends on the cuts made before in the other direction
+    'SLVX': (lambda i: [F(0), F(1), F(128), F(256)][i], lambda j: [F(0), F(64), F(128), F(192)][j]),
+    'SLVY': (lambda i: [F(0), F(64), F(128), F(192)][i], lambda j: [F(0), F(1), F(128), F(256)][j]),
 }
 
 
@@ -328,16 +332,19 @@ def shard_plan(tier):
     """list of shard descriptors: (family, grid, layout index range)"""
     out = []
     if tier == 'quick':
-        plan = [('HALF', 3, 2, 3, True), ('DEC1', 2, 3, 2, False), ('STRX', 3, 2, 2, False), ('STRY', 2, 3, 2, False), ('P300', 3, 2, 2, False)]
+        plan = [('HALF', 3, 2, 3, True), ('DEC1', 2, 3, 2, False), ('STRX', 3, 2, 2, False), ('STRY', 2, 3, 2, False), ('P300', 3, 2, 2, False),
+                ('SLVX', 3, 3, 3, False), ('SLVY', 3, 3, 3, False)]
     else:
         # depth 2 with all 8 operations on the larger plan; depth 3 (6 operations) on the small plan marked deep=True
         plan = [('HALF', 3, 2, 3, True), ('DEC1', 3, 2, 3, True), ('DEC3', 2, 3, 3, False), ('STRX', 3, 2, 3, False), ('STRY', 2, 3, 3, False),
-                ('P300', 3, 2, 3, False), ('DEC7', 4, 1, 4, False), ('HALF', 2, 2, 2, 'deep'), ('DEC1', 2, 1, 2, 'deep')]
+                ('P300', 3, 2, 3, False), ('DEC7', 4, 1, 4, False), ('HALF', 2, 2, 2, 'deep'), ('DEC1', 2, 1, 2, 'deep'),
+                ('SLVX', 3, 3, 3, False), ('SLVY', 3, 3, 3, False)]
     for (fam, nx, ny, kmax, rich) in plan:
         n = len(layouts(nx, ny, kmax))
-        step = 4
+        step = 4 if not fam.startswith('SLV') else 48
         for lo in range(0, n, step):
-            out.append(dict(fam=fam, nx=nx, ny=ny, kmax=kmax, rich=(rich is True), deep=(rich == 'deep'), lo=lo, hi=min(n, lo + step)))
+            out.append(dict(fam=fam, nx=nx, ny=ny, kmax=kmax, rich=(rich is True), deep=(rich == 'deep'), lo=lo, hi=min(n, lo + step),
+                            gridonly=fam.startswith('SLV')))
     return out
 
 
@@ -407,7 +414,13 @@ class Checker:
         try:
             variants = ref_apply(cells, op)
         except SliverAmbiguity:
+            # the exact reference does not prescribe the result (an exempted cut is involved): judge the stated outcome
             res.counters['ambiguous:sliver-cut'] += 1
+            real = real_cells(out)
+            if self.mode == 'C12':
+                self.grid_postcondition(real, hist, at, tol)
+            else:
+                self.conservation(alloc, out, real, hist, at, tol)
             return None
         real = real_cells(out)
         succ = match_result(real, variants, tol)
@@ -437,6 +450,11 @@ class Checker:
                 except Exception:  # noqa  (reported by on_state)
                     pass
             return succ
+        self.conservation(alloc, out, real, hist, at, tol)
+        return succ
+
+    def conservation(self, alloc, out, real, hist, at, tol):
+        res = self.res
         # ---------------- C02: conservation, checked on the real objects
         before = real_cells(alloc)
         s2 = tol * tol * 1e9 if tol > 0 else 0.0      # area tolerance: 1e-9 * scale^2
@@ -485,8 +503,25 @@ class Checker:
                 res.violation('centroid', self.case(hist), dict(at, module=m), [c0.x, c0.y], [c1.x, c1.y])
         if sorted(mods) != sorted({m for rc in real for m in rc[3]}):
             res.violation('inherit', self.case(hist), at, mods, sorted({m for rc in real for m in rc[3]}))
-        return succ
 
+    def grid_postcondition(self, real, hist, at, tol):
+        """the stated outcome of grid refinement, judged on the real result: no refinable cell is crossed by a boundary line
+        of any cell, except where the cut would leave a piece thinner than 1% of the cell's other side"""
+        xs = sorted({rc[0][0] for rc in real} | {rc[0][2] for rc in real})
+        ys = sorted({rc[0][1] for rc in real} | {rc[0][3] for rc in real})
+        for rc in real:
+            if rc[1]:
+                continue
+            x0, y0, x1, y1 = rc[0]
+            for (lines, lo, hi, other, axis) in ((xs, x0, x1, y1 - y0, 'x'), (ys, y0, y1, x1 - x0, 'y')):
+                for v in lines:
+                    if lo + tol < v < hi - tol:
+                        piece = min(v - lo, hi - v)
+                        if piece > 0.01 * other * (1 + 1e-6) + tol:
+                            self.res.violation('grid-crossed', self.case(hist), dict(at, axis=axis),
+                                               f'cell {[round(q, 9) for q in rc[0]]} cut at {axis}={v} (piece {piece} is not thinner than 1% of {other})',
+                                               'the cell is left crossed by that line')
+                            return
 
 def run_shard_common(mode, shard, tier, res):
     depth = 3 if shard.get('deep') else 2
@@ -498,7 +533,8 @@ def run_shard_common(mode, shard, tier, res):
     for cells in shard_states(shard):
         ck = Checker(mode, res, fam, cells)
         t_before = res.transitions
-        explore(cells, depth, ck.on_state, ck.on_transition, res, scale, OPS_QUICK if (tier == 'quick' or shard.get('deep')) else OPS, prior=fam.startswith('P'))
+        ops = [('griddify',)] if shard.get('gridonly') else OPS_QUICK if (tier == 'quick' or shard.get('deep')) else OPS
+        explore(cells, depth, ck.on_state, ck.on_transition, res, scale, ops, prior=fam.startswith('P'))
         if res.transitions > t_before:
             n0 += 1
             if first is None:
